@@ -828,6 +828,7 @@ class MaterialIndexer(Indexer):
             phases = self._phases
             data.rows = [data_by_phase[i] for i in phases]
             self._set_cache()
+            self._data_cache.clear()
             
     def mix_from(self, others):
         isa = isinstance
